@@ -8,7 +8,9 @@
 //!  * `pack <t|d> <adds> <reads>`   adds = `id64.len.ulen|-` joined by `+` (`-` = none); the real `BasicPacker` (hook newtype)
 //!       gets one `add_raw` per add (data = `len` deterministic bytes), `header_bytes`, real `encrypt_data`,
 //!       `write_header`, `take_data`; the file is stored in a `MemBackend` and the real `PackHeader::from_file` is
-//!       called once per read = `hint|-:psize|-` (`-` = no hint / the true size) joined by `,`.
+//!       called once per read = `hint|-:psize|-` (`-` = no hint / the true size) joined by `,`; psize may also name a MODIFIED
+//!       file that is read with its own true size: `F<k>` k junk bytes in front, `E<k>` k junk bytes appended, `FB` a copy of the
+//!       first blob in front, `FP` the pack twice (result `=` / `ne` / `e`; an empty extension is the true file).
 //!       -> `ok blobs=<id8.t.off.len.ulen,…> len=<file length> ff=<r,…>`, r = `=` (Ok and equal to the index blobs),
 //!          `ne` (Ok but different), `err:<Kind>` (true size), `e` (any error, wrong size).
 //!       Harness-side oracles on the real pack: file length = `index.pack_size()`, every blob's byte range holds the
@@ -361,6 +363,27 @@ pub fn generate(thorough: bool, rng: &mut Rng, ops: &mut Vec<String>, stats: &mu
                 reads.push(format!("{h}:{ps}"));
             }
         }
+        // MODIFIED files read with their own (new) true size — what `repair index` / `to_indexed_checked` hand to `from_file`:
+        // junk / a copy of the first blob / the whole pack in FRONT (the header at the end stays intact), junk at the END
+        let rand_hint = |rng: &mut Rng| match rng.below(4) {
+            0 => "-".to_string(),
+            1 => hsz.to_string(),
+            2 => rng.below(total + 50).to_string(),
+            _ => "0".to_string(),
+        };
+        for _ in 0..(1 + rng.below(3)) {
+            let k = *rng.pick(&[1u64, 2, 4, 16, 32, 36, 37, 41, 100, 4096]);
+            let k = if rng.chance(1, 3) { 1 + rng.below(3000) } else { k };
+            let spec = match rng.below(7) {
+                0 | 1 => format!("F{k}"),
+                2 => format!("E{k}"),
+                3 | 4 => "FB".to_string(),
+                _ => "FP".to_string(),
+            };
+            stats.hit(format!("pack.read.extended.{}", &spec[..spec.len().min(2)].trim_end_matches(char::is_numeric)));
+            let h = rand_hint(rng);
+            reads.push(format!("{h}:{spec}"));
+        }
         stats.hit(format!("pack.adds.{}", Stats::bucket(n as usize)));
         stats.add("pack.reads", reads.len() as u64);
         ops.push(format!("c08 pack {t} {} {}", if adds.is_empty() { "-".to_string() } else { adds.join("+") }, reads.join(",")));
@@ -386,6 +409,9 @@ pub fn generate(thorough: bool, rng: &mut Rng, ops: &mut Vec<String>, stats: &mu
                 }
             }
             reads.push(format!("{}:-", rng.below(500_000)));
+            // one read of the pack extended at the front / duplicated / extended at the end, with its own true size
+            reads.push(format!("{}:{}", rng.pick(&["-", "h0", "0"]), rng.pick(&["F1", "F41", "FB", "FP", "E4", "F1000"])));
+            stats.hit("packn.read.extended");
             stats.hit(format!("packn.{mode}.{}", if n == "max" { "count-limit" } else { "below-limit" }));
             stats.add("pack.reads", reads.len() as u64);
             ops.push(format!("c08 packn {t} {n} {len} {mode} {}", reads.join(",")));
@@ -608,11 +634,11 @@ fn exec_pack(t: &str, adds: &str, reads: &str) -> String {
             add_list.push((id, len, ul));
         }
     }
-    let mut read_list: Vec<(Option<Hint>, Option<u32>)> = Vec::new();
+    let mut read_list: Vec<(Option<Hint>, PsSpec)> = Vec::new();
     for r in reads.split(',') {
         let Some((h, p)) = r.split_once(':') else { return "bad-op".into() };
         let hh = if h == "-" { None } else { match h.parse::<u32>() { Ok(x) => Some(Hint::Abs(x)), Err(_) => return "bad-op".into() } };
-        let pp = if p == "-" { None } else { match p.parse::<u32>() { Ok(x) => Some(x), Err(_) => return "bad-op".into() } };
+        let Some(pp) = parse_ps(p) else { return "bad-op".into() };
         read_list.push((hh, pp));
     }
     pack_case(bt, &add_list, None, read_list, false)
@@ -643,7 +669,7 @@ fn exec_packn(t: &str, n: &str, len: &str, mode: &str, reads: &str) -> String {
         }
     };
     let add_list: Vec<(Id, usize, Option<NonZeroU32>)> = (0..n.unwrap_or(20_000)).map(|k| (label_id(k as u64), len, ulen(k))).collect();
-    let mut read_list: Vec<(Option<Hint>, Option<u32>)> = Vec::new();
+    let mut read_list: Vec<(Option<Hint>, PsSpec)> = Vec::new();
     for r in reads.split(',') {
         let Some((h, p)) = r.split_once(':') else { return "bad-op".into() };
         let hh = if h == "-" {
@@ -653,7 +679,7 @@ fn exec_packn(t: &str, n: &str, len: &str, mode: &str, reads: &str) -> String {
         } else {
             match h.parse::<u32>() { Ok(x) => Some(Hint::Abs(x)), Err(_) => return "bad-op".into() }
         };
-        let pp = if p == "-" { None } else { match p.parse::<u32>() { Ok(x) => Some(x), Err(_) => return "bad-op".into() } };
+        let Some(pp) = parse_ps(p) else { return "bad-op".into() };
         read_list.push((hh, pp));
     }
     pack_case(bt, &add_list, Some(n.is_none()), read_list, true)
@@ -666,8 +692,44 @@ enum Hint {
     Rel(i64),
 }
 
+/// the pack-size part of a `from_file` read: `-` the stored file with its true size, `<n>` the stored file with a WRONG size
+/// argument, or a MODIFIED stored file read with ITS true size (what `repair index` / `to_indexed_checked` do after listing the
+/// packs): `F<k>` = k junk bytes put in FRONT of the pack, `E<k>` = k junk bytes appended, `FB` = a copy of the first blob in
+/// front, `FP` = the whole pack twice.  The header at the end of a front-extended pack is intact.
+#[derive(Clone, Copy)]
+enum PsSpec {
+    True,
+    Abs(u32),
+    Front(u32),
+    End(u32),
+    FrontBlob,
+    Dup,
+}
+
+fn parse_ps(p: &str) -> Option<PsSpec> {
+    Some(match p {
+        "-" => PsSpec::True,
+        "FB" => PsSpec::FrontBlob,
+        "FP" => PsSpec::Dup,
+        _ => {
+            if let Some(k) = p.strip_prefix('F') {
+                PsSpec::Front(k.parse::<u32>().ok().filter(|k| *k <= 1 << 20)?)
+            } else if let Some(k) = p.strip_prefix('E') {
+                PsSpec::End(k.parse::<u32>().ok().filter(|k| *k <= 1 << 20)?)
+            } else {
+                PsSpec::Abs(p.parse::<u32>().ok()?)
+            }
+        }
+    })
+}
+
+/// the junk of `F<k>` / `E<k>` (the same bytes in the Lean driver)
+fn junk(k: u32) -> Vec<u8> {
+    (0..k).map(|i| (i.wrapping_mul(37).wrapping_add(11)) as u8).collect()
+}
+
 /// Shared body of `pack` / `packn`.  `until_full`: `Some(true)` = stop adding as soon as the real packer says `should_save()`.
-fn pack_case(bt: BlobType, add_list: &[(Id, usize, Option<NonZeroU32>)], until_full: Option<bool>, read_list: Vec<(Option<Hint>, Option<u32>)>, compact: bool) -> String {
+fn pack_case(bt: BlobType, add_list: &[(Id, usize, Option<NonZeroU32>)], until_full: Option<bool>, read_list: Vec<(Option<Hint>, PsSpec)>, compact: bool) -> String {
     let key = Key::new();
     let mut packer = BasicPackerHook::new(bt, PackSizer::fixed(u32::MAX));
     let mut first_data: BTreeMap<Id, Vec<u8>> = BTreeMap::new();
@@ -742,15 +804,33 @@ fn pack_case(bt: BlobType, add_list: &[(Id, usize, Option<NonZeroU32>)], until_f
     let be = MemBackend::new();
     let pid = Id::new(Sha256::digest(&bytes).into());
     be.put_raw(FileType::Pack, pid, Bytes::from(bytes.clone()));
-    let dbe = DecryptBackend::new(Arc::new(be) as Arc<dyn WriteBackend>, key);
+    let dbe = DecryptBackend::new(Arc::new(be.clone()) as Arc<dyn WriteBackend>, key);
     let mut ff = Vec::new();
     for (hint, ps) in read_list {
         let hint: Option<u32> = hint.map(|x| match x {
             Hint::Abs(a) => a,
             Hint::Rel(r) => (hl as i64 + r).max(0) as u32,
         });
-        let true_size = ps.is_none() || ps == Some(bytes.len() as u32);
-        let r = guarded(std::panic::AssertUnwindSafe(|| match pf::from_file(&dbe, PackId::from(pid), hint, ps.unwrap_or(bytes.len() as u32)) {
+        // the file that is read and the pack size handed to `from_file`
+        let first_blob = index.blobs.first().map_or(0, |b| b.location.length as usize);
+        let modified: Option<Vec<u8>> = match ps {
+            PsSpec::True | PsSpec::Abs(_) => None,
+            PsSpec::Front(k) => Some([junk(k), bytes.clone()].concat()),
+            PsSpec::End(k) => Some([bytes.clone(), junk(k)].concat()),
+            PsSpec::FrontBlob => Some([bytes[..first_blob].to_vec(), bytes.clone()].concat()),
+            PsSpec::Dup => Some([bytes.clone(), bytes.clone()].concat()),
+        };
+        let (rid, size_arg) = match (&modified, ps) {
+            (Some(m), _) => {
+                let mid = Id::new(Sha256::digest(m).into());
+                be.put_raw(FileType::Pack, mid, Bytes::from(m.clone()));
+                (mid, m.len() as u32)
+            }
+            (None, PsSpec::Abs(v)) => (pid, v),
+            (None, _) => (pid, bytes.len() as u32),
+        };
+        let true_size = size_arg == bytes.len() as u32;
+        let r = guarded(std::panic::AssertUnwindSafe(|| match pf::from_file(&dbe, PackId::from(rid), hint, size_arg) {
             Ok(bl) => {
                 if same_blobs(&bl, &index.blobs) {
                     "=".to_string()
